@@ -154,8 +154,39 @@ class Containment:
                     lst.append((src, protecting_handler(ctx) is not None, ctx))
             self.local[f] = lst
 
+    def _recursion_sources(self):
+        """A function that can call itself again (directly or through other repo functions)
+        outside any failure handler recurses as deep as the caller's data is nested:
+        RecursionError is a raise source located at the recursive call site."""
+        cg = self.cg
+        funcs = [f for f in self.p.all_funcs(prod_only=True)]
+        fset = set(funcs)
+        succ = {}
+        for f in funcs:
+            fsites = {id(s.call) for s, _how in failure_sites(cg, f) if s.call is not None}
+            out = []
+            for s in cg.sites.get(f, []):
+                if s.call is None or id(s.call) in fsites:
+                    continue
+                for g in self._callees(s):
+                    if g in fset:
+                        out.append((g, s))
+            succ[f] = out
+        comps = sccs(funcs, lambda f: [g for g, s in succ.get(f, [])])
+        for comp in comps:
+            cset = set(comp)
+            cyclic = len(comp) > 1 or any(g is comp[0] for g, s in succ.get(comp[0], []))
+            if not cyclic:
+                continue
+            for f in comp:
+                for g, s in succ.get(f, []):
+                    if g in cset:
+                        src = Source("foreign", f, s.lineno, s.text, "recursive call: recursion depth follows the nesting of the data given by the caller (RecursionError)", s.call)
+                        self.local[f].append((src, protecting_handler(s.ctx) is not None, s.ctx))
+
     def _fixpoint(self):
         cg = self.cg
+        self._recursion_sources()
         funcs = list(self.p.all_funcs(prod_only=False))
         for f in funcs:
             self.U[f] = {}
